@@ -64,7 +64,7 @@ _hist_prop("C11", ["CC.Props.C11", "CC.Props.NonVacuity"],
 _hist_prop("C17", ["CC.Props.C17", "CC.Props.C17Alg", "CC.Props.C01Alg"], configs=BOTH, text=
     "Lean theorems: generated keys carry fresh, registered identifiers and the master key's tracers; identifiers of different keys differ; unknown identifiers are refused with nothing changed; refresh keeps registration; over every history all registered identifiers are made of tokens already drawn, so a key generation hands out an identifier nobody carries, registers it, and the key stays an issued key (registered, signature valid) after any further operations (new_key_id_fresh_and_stays_registered); (Mathlib, any field) the last marker solved from the others satisfies sum t_i a_i = s for every tracing level. Correspondence: keygen/refresh/round-trip/rollback histories; user counts, ids, tracer counts compared; the relation sum t_i a_i = s is evaluated by the Lean driver in Z/l on the real scalars (master key tracers and binding scalar, user key markers) of both curves")
 _hist_prop("C18", ["CC.Props.C18"],
-    "Lean theorems: full_decaps recovers exactly the rights whose newest secret is activated and one of whose secrets opens a component; recaps draws a new secret and targets the published keys of exactly those rights in the flavour they all support; it fails when nothing is recovered; an up-to-date authorised key opens the result. Correspondence: histories with recaps after rekeys/prunes/disables/deletions under every public key; decaps matrices of the outputs compared")
+    "Lean theorems: full_decaps recovers exactly the rights whose newest secret is activated and one of whose secrets opens a component; recaps draws a new secret and targets the published keys of exactly those rights in the flavour they all support; it fails when nothing is recovered; an up-to-date authorised key opens the result; over every history no key whose rights are all outside the recovered ones opens it (tokens never serve two rights: no_other_key_opens_recaps). Correspondence: histories with recaps after rekeys/prunes/disables/deletions under every public key; decaps matrices of the outputs compared")
 
 PROPS["C12"] = {
     "modules": ["CC.Props.C12"], "campaigns": [hist("C12", BOTH), {"name": "golden", "configs": ONE}], "quick_configs": ONE, "tables": {"labels": "supporting"},
